@@ -61,13 +61,13 @@ def run_sub(ctx, sub, cases, what, timeout=600):
     return r
 
 
-def mc(ctx, what, items, xff, auth, timeout):
+def mc(ctx, what, items, xff, auth, timeout, coverage=False):
     r = ctx.tlc("Access_MC", cfg_text=cfg("Spec", items, xff, auth=auth, inv=True), workers=8,
-                timeout=timeout, coverage=ctx.thorough)
+                timeout=timeout, coverage=coverage)
     ctx.log("MC %s (<=%d items, XFF<=%d, auth=%s): %d generated, %d distinct, %.0fs" % (what, items, xff, auth, r.generated, r.distinct, r.wall))
     if not ctx.need_tlc_ok(r, "Access MC " + what):
         return False
-    if ctx.thorough:
+    if coverage:
         dead = [a for a in r.coverage0 if a in ACTIONS]
         if dead:
             ctx.inconclusive("Access MC %s: action(s) never taken: %s" % (what, dead))
@@ -123,7 +123,10 @@ def run(ctx):
     ]
     # 1. the gate and the list clauses on the model
     if ctx.thorough:
-        for what, items, xff, auth in (("gate", 2, 1, True), ("gate-3items", 3, 1, True), ("gate-xff2", 2, 2, True), ("gate-3items-xff2", 3, 2, False)):
+        # coverage statistics (vacuity guard: every action taken) on the small configuration only - they slow TLC a lot
+        if not mc(ctx, "gate-auth-coverage", 1, 1, True, 600, coverage=True):
+            return
+        for what, items, xff, auth in (("gate-3items", 3, 1, True), ("gate-xff2", 2, 2, True), ("gate-3items-xff2", 3, 2, False)):
             if not mc(ctx, what, items, xff, auth, 900):
                 return
     else:
